@@ -15,11 +15,13 @@ from stone.ir import (
     UInt64,
     Void,
     is_boolean_type,
+    is_bytes_type,
     is_list_type,
     is_map_type,
     is_numeric_type,
     is_string_type,
     is_tag_ref,
+    is_timestamp_type,
     is_user_defined_type,
     is_void_type,
     unwrap_nullable, )
@@ -407,8 +409,16 @@ def fmt_default_value(field):
         else:
             bool_str = 'NO'
         return '@{}'.format(bool_str)
-    elif is_string_type(field.data_type):
+    elif is_string_type(field.data_type) or is_bytes_type(field.data_type):
         return '@"{}"'.format(field.default)
+    elif is_timestamp_type(field.data_type):
+        return fmt_func_call(
+            caller=fmt_serial_obj(field.data_type),
+            callee='deserialize',
+            args=fmt_func_args([
+                ('value', '@"{}"'.format(field.default)),
+                ('dateFormat', '@"{}"'.format(field.data_type.format)),
+            ]))
     else:
         raise TypeError(
             'Can\'t handle default value type %r' % type(field.data_type))
